@@ -147,27 +147,40 @@ fn run_cli(bin: &str, args: &[String]) -> (i32, String, String, bool) {
         Ok(c) => c,
         Err(e) => return (-999, String::new(), format!("cannot start {bin}: {e}"), false),
     };
+    // the pipes are drained while the process runs (a document larger than the pipe buffer would otherwise block the tool)
+    let (mut so, mut se) = (child.stdout.take().expect("stdout"), child.stderr.take().expect("stderr"));
+    let ho = std::thread::spawn(move || {
+        let mut v = Vec::new();
+        let _ = std::io::Read::read_to_end(&mut so, &mut v);
+        v
+    });
+    let he = std::thread::spawn(move || {
+        let mut v = Vec::new();
+        let _ = std::io::Read::read_to_end(&mut se, &mut v);
+        v
+    });
     let t0 = Instant::now();
     let mut timed_out = false;
-    loop {
+    let status = loop {
         match child.try_wait() {
-            Ok(Some(_)) => break,
+            Ok(Some(st)) => break Some(st),
             Ok(None) => {
                 if t0.elapsed() > Duration::from_secs(40) {
                     let _ = child.kill();
                     timed_out = true;
-                    break;
+                    break child.wait().ok();
                 }
                 std::thread::sleep(Duration::from_millis(3));
             }
-            Err(_) => break,
+            Err(_) => break None,
         }
-    }
-    let out = child.wait_with_output().expect("cli output");
+    };
+    let out = ho.join().unwrap_or_default();
+    let err = he.join().unwrap_or_default();
     (
-        out.status.code().unwrap_or(-1),
-        String::from_utf8_lossy(&out.stdout).to_string(),
-        String::from_utf8_lossy(&out.stderr).to_string(),
+        status.and_then(|s| s.code()).unwrap_or(-1),
+        String::from_utf8_lossy(&out).to_string(),
+        String::from_utf8_lossy(&err).to_string(),
         timed_out,
     )
 }
@@ -438,6 +451,9 @@ pub fn replay(fctx: &fuzz::Ctx, bin: &str, cases: &[Value], seed: u64, reps: usi
                 // 64-bit integer (D15)
                 CAP_U63.with(|x| x.set(c["fmt"].as_str().map_or(false, |f| f.starts_with("bson"))));
                 good_case(fctx, bin, c, &mut rng, rep);
+            } else if c["err"] == "malformed_reply" {
+                malformed_reply_case(fctx, bin, c, &mut rng, rep);
+                finish_case();
             } else {
                 bad_case(bin, c, rep);
             }
@@ -628,6 +644,64 @@ fn good_case_inner(fctx: &fuzz::Ctx, bin: &str, c: &Value, rng: &mut StdRng, rep
 fn bad_case(bin: &str, c: &Value, rep: &mut Report) {
     bad_case_inner(bin, c, rep);
     finish_case();
+}
+
+/// A reachable server whose reply the library rejects: the tool must fail the way it fails for an unreachable one (non-zero
+/// status, a message, nothing printed), whatever the kind of the library's error.
+fn malformed_reply_case(fctx: &fuzz::Ctx, bin: &str, c: &Value, rng: &mut StdRng, rep: &mut Report) {
+    let fam = c["fam"].as_str().unwrap();
+    let id = game_of(fam);
+    let name = format!("generic:{id}");
+    let mut base = fuzz::base_for(rng, fctx, &name);
+    if fam == "mcauto" {
+        base.conns.truncate(1);
+    }
+    for (_, batches) in &mut base.conns {
+        for b in batches.iter_mut() {
+            for d in b.iter_mut() {
+                match c["how"].as_str().unwrap() {
+                    "truncated" => d.truncate(d.len() / 2),
+                    "appended" => d.extend([0x41u8; 24]),
+                    _ => {
+                        for x in d.iter_mut().skip(4) {
+                            *x = x.wrapping_mul(31).wrapping_add(7);
+                        }
+                    }
+                }
+            }
+        }
+    }
+    base.cfg = json!({"port": 27015, "retries": 0});
+    let script = base.script();
+    let lib = call_entry(&name, &base.cfg, &script);
+    let Outcome::Err(kind) = &lib.outcome else {
+        // the library accepts (or panics on: C01's subject) this reply: not a case of a rejected reply
+        let n = rep.extra.get("malformed_reply_accepted_by_library").and_then(|v| v.as_u64()).unwrap_or(0);
+        rep.extra.insert("malformed_reply_accepted_by_library".into(), json!(n + 1));
+        return;
+    };
+    let served = serve(&base);
+    let args: Vec<String> = ["query", "-g", id, "-i", "127.0.0.1", "-p", &served.port.to_string(), "-f", "json", "--read-timeout", "1", "--connect-timeout", "1", "--write-timeout", "1"]
+        .iter()
+        .map(|s| s.to_string())
+        .collect();
+    let (code, out, err, timed_out) = run_cli(bin, &args);
+    served.stop();
+    note_run("bad", "malformed_reply", code, &out, &err, timed_out);
+    let mut fail = |sig: String| {
+        note_sig(&sig);
+        rep.violation("C19", &sig, json!({"kind":"cli-error","case":c,"args":args,"exit":code,"library_error":kind,"stdout":out.chars().take(300).collect::<String>(),
+                                          "stderr":err.chars().take(600).collect::<String>(),"script":script}));
+    };
+    if timed_out {
+        fail(format!("cli malformed reply ({fam}): did not exit"));
+    } else if err.contains("panicked at") {
+        fail(format!("cli malformed reply ({fam}): panic"));
+    } else if code == 0 {
+        fail(format!("cli malformed reply: exit status 0 although the library rejects the reply"));
+    } else if err.trim().is_empty() {
+        fail(format!("cli malformed reply: no error message"));
+    }
 }
 
 fn bad_case_inner(bin: &str, c: &Value, rep: &mut Report) {
